@@ -508,7 +508,10 @@ static void do_op (char *op)
         case 4: g_string_append (g, "m=audio 0 ICE/SDP\na=ice-ufrag:\na=candidate:5 7 UDP 1 10.0.9.9 9 typ srflx raddr\n"); break;
         default: g_string_append (g, "a=candidate:6 1 TCP 1 10.0.9.9 9 typ host tcptype\n"); break; }
       int r = nice_agent_parse_remote_sdp (A[i].agent, g->str); gchar *uf = NULL, *pw = NULL;
-      GSList *l = nice_agent_parse_remote_stream_sdp (A[i].agent, 1, g->str, &uf, &pw);
+      /* the per-stream parser gets one stream's SDP (a session SDP repeats a=ice-ufrag per stream) with the same damage appended */
+      gchar *ss = nice_agent_generate_local_stream_sdp (A[j].agent, 1, TRUE); GString *g2 = g_string_new (ss ? ss : ""); g_free (ss);
+      { const char *tail = strstr (g->str, "a=candidate:1 1 UDP 2015363327 10.0.9.9"); if (!tail) tail = strstr (g->str, "a=candidate:3 1 UDP 2015363327 10.0.9.9"); if (!tail) tail = strstr (g->str, "a=candidate:6 1 TCP"); if (tail) g_string_append (g2, tail); else if (g2->len > 17) g_string_truncate (g2, g2->len - 17); }
+      GSList *l = nice_agent_parse_remote_stream_sdp (A[i].agent, 1, g2->str, &uf, &pw); g_string_free (g2, TRUE);
       T ("api %d parse_damaged_sdp from=%d v=%d =%d n=%u", i, j, v % 6, r, g_slist_length (l));
       g_slist_free_full (l, (GDestroyNotify) nice_candidate_free); g_free (uf); g_free (pw); g_string_free (g, TRUE); } }
   else if (!strcmp (a[0], "detach")) { gboolean r = nice_agent_attach_recv (A[I (1)].agent, I (2), I (3), ctx, NULL, NULL); T ("api %d detach_recv %d %d =%d", I (1), I (2), I (3), r); }
@@ -579,7 +582,7 @@ int main (void)
     /* one process per scenario: whatever LeakSanitizer finds at its exit was leaked by this scenario */
     fflush (hc_out); fflush (stderr);
     pid_t pid = fork ();
-    if (pid == 0) { int ab = run_case (line); fflush (hc_out); if (ab) _exit (0); __lsan_do_leak_check (); _exit (0); }
+    if (pid == 0) { int ab = run_case (line); fflush (hc_out); if (ab) _exit (0); _exit (__lsan_do_recoverable_leak_check () ? 23 : 0); }
     int st = 0; waitpid (pid, &st, 0);
     if (WIFEXITED (st) && WEXITSTATUS (st) == 23) fprintf (hc_out, " | 0 LEAK");
     else if (!WIFEXITED (st) || WEXITSTATUS (st) != 0) fprintf (hc_out, " | 0 CRASH status=%d", st);
